@@ -1,11 +1,11 @@
 #!/bin/sh
-# all seeds, six lanes of properties, each lane on its own scratch worktree of /repo's HEAD
+# all seeds (or those matching the regular expression $ONLY), six lanes of properties, each lane on its own scratch worktree of /repo's HEAD; log in $LOG
 lane() {
   i=$1; shift
   W=/tmp/wt/lane_$i
   git -C /repo worktree add -q --detach $W HEAD || return
   for P in "$@"; do
-    for d in $(ls /verif/seeded | grep "^${P}_"); do
+    for d in $(ls /verif/seeded | grep "^${P}_" | grep -E "${ONLY:-.}"); do
       sh /verif/tools/seed/try_seed_wt.sh $W $d $P | tail -1 >> ${LOG:-/verif/out/regress_lanes.log}
     done
   done
